@@ -29,6 +29,15 @@ class _OsProxy:
         self._log.append((os.fsdecode(src), os.fsdecode(dst)))
         return r
 
+    def replace(self, src, dst, *a, **kw):
+        # (since repair D29 a file is moved aside with os.replace onto a slot created beforehand; restore_all
+        # uses os.replace in the other direction, which is not a move into the backup directory)
+        r = self._real.replace(src, dst, *a, **kw)
+        if self.into is not None and os.fsdecode(dst).startswith(self.into):
+            self._log.append((os.fsdecode(src), os.fsdecode(dst)))
+        return r
+    into = None
+
 
 def run(n, timeout=600):
     """Returns (verdict clause or '', detail, stats)."""
@@ -54,6 +63,7 @@ def run(n, timeout=600):
         recs = []
         with fbm.FileBackups() as backups:
             tdir = backups._temp_dir
+            fbm.os.into = tdir + os.sep
             for i, fn in enumerate(names):
                 ok = backups.back_up_and_remove(fn)
                 if not ok or os.path.exists(fn):
